@@ -168,10 +168,53 @@ def chk_seq(case):
     return []
 
 
+def chk_ia(case):
+    """seeds of one (reference, query, strand): a reference that carries the query's label pattern at 14 places (exact copies, further apart than
+    minPeakDistance) must yield exactly min(peaksCount, 14) seeds for peaksCount up to 14, each at one of the copies (within a bin), no copy twice"""
+    import warnings
+    warnings.simplefilter('ignore')
+    from src.correlation.optical_map import OpticalMap
+    from src.correlation.sequence_generator import SequenceGenerator
+    seed, = case
+    rnd = random.Random(seed)
+    pattern, x = [], 0
+    for _ in range(rnd.randint(16, 24)):
+        pattern.append(x)
+        x += rnd.randint(3000, 12000)
+    span = pattern[-1]
+    ref, starts, at = [], [], rnd.randint(5000, 20000)
+    for c in range(14):
+        starts.append(at)
+        ref += [at + p for p in pattern]
+        at += span + rnd.randint(40000, 90000)
+        for _ in range(rnd.randint(1, 3)):                       # a few unrelated labels between the copies
+            ref.append(at - rnd.randint(8000, 30000))
+    ref = sorted(set(ref))
+    reference = OpticalMap(1, ref[-1] + 5000, ref)
+    query = OpticalMap(2, span + 1, list(pattern))
+    gen = SequenceGenerator(1400, 1)
+    bad = []
+    for k in (1, 3, 5, 12, 14):
+        try:
+            ia = query.getInitialAlignment(reference, gen, 20000, k)
+        except Exception as e:
+            return [f'exception:{type(e).__name__}']
+        got = [p.position for p in ia.peaks]
+        if len(got) != k:
+            bad.append('as_many_seeds_as_asked_for_when_that_many_peaks_exist')
+            break
+        hit = sorted({min(range(14), key=lambda c: abs(starts[c] - g)) for g in got})
+        if len(hit) != k or any(min(abs(s0 - g) for s0 in starts) > 2 * 1400 for g in got):
+            bad.append('every_seed_at_a_copy_of_the_query_pattern_no_copy_twice')
+            break
+    return bad
+
+
 CHECKS = {'pts': (chk_pts, 'src/correlation/sequence_generator.py::SequenceGenerator.positionsToSequence'),
           'vec': (chk_vectorise, V + 'vectorisePositions'), 'blur': (chk_blur, V + 'blur'),
           'trgp': (chk_trgp, OM + 'toRelativeGenomicPositions'), 'sel': (chk_select, PS),
-          'create': (chk_create, OM + 'CorrelationResult.createPeaks'), 'seq': (chk_seq, OM + 'OpticalMap.getSequence')}
+          'create': (chk_create, OM + 'CorrelationResult.createPeaks'), 'seq': (chk_seq, OM + 'OpticalMap.getSequence'),
+          'ia': (chk_ia, OM + 'OpticalMap.getInitialAlignment')}
 
 
 def run_chunk(cases):
@@ -214,6 +257,8 @@ def all_cases(tier, seed):
                             if start >= 0 and radius < 2:
                                 for reverse in (False, True):
                                     cs.append(('seq', (pos, res, start, end, radius, reverse)))
+    for i in range(6 if tier == 'quick' else 80):
+        cs.append(('ia', (seed * 131 + i,)))
     rnd = random.Random(seed)
     for _ in range(500 if tier == 'quick' else 5000):
         n = rnd.randint(1, 25)
@@ -239,7 +284,8 @@ def bounded(repo, tier, seed):
                   "exhaustive small cases per function: vectorisePositions (label lists of <=3 labels on 0..9 x resolution 1-4 x start x end incl. "
                   "None/0/before-last), blur (all bit vectors up to length %d x radius 0-3), toRelativeGenomicPositions (bins 0-5 x resolution 1-8 x start), "
                   "selectPeaks (peak score lists with ties, zero and negative scores x count 0-5), createPeaks (height vectors over 4 values with ties x peaksCount), OpticalMap.getSequence "
-                  "(the positionsToSequence lattice with start >= 0 - a window start ON a label included - on both strands); "
+                  "(the positionsToSequence lattice with start >= 0 - a window start ON a label included - on both strands), getInitialAlignment on references that "
+                  "carry the query pattern 14 times with peaksCount 1 / 3 / 5 / 12 / 14 (exactly that many seeds, each at a copy); "
                   "plus random larger label lists; counts per function: %s" % (8 if tier == 'quick' else 11, counts),
                   [dict(kind=k, case=c) for k, c in (cs[10], cs[len(cs) // 2], cs[-1])], list(viol.values())[:5],
                   exhaustive=True, bounds="see rule")
